@@ -275,16 +275,16 @@ struct FLine {
     path: PathBuf,
     line: usize,
 }
-struct Model<'a> {
-    files: BTreeMap<PathBuf, &'a FileSpec>,
+struct Model {
+    files: BTreeMap<PathBuf, std::rc::Rc<FileSpec>>,
     max_depth: usize,
     out: Vec<FLine>,
     /// for an EIO: number of flattened lines emitted before the failing file was entered
     io_lower: Option<usize>,
 }
-impl<'a> Model<'a> {
+impl Model {
     fn flatten(&mut self, path: &Path, depth: usize, origin: &mut String) -> Result<(), ModelErr> {
-        let spec = *self.files.get(path).expect("model: file exists");
+        let spec = self.files.get(path).expect("model: file exists").clone();
         let mut offset = 0usize;
         for (i, l) in spec.lines.iter().enumerate() {
             let line_no = i + 1;
@@ -314,7 +314,7 @@ impl<'a> Model<'a> {
                     simrt::probe("c25_parent_dir_path");
                 }
                 let key = norm(&resolved);
-                let Some(t) = self.files.get(&key).copied() else { panic!("harness: include target not in tree") };
+                let Some(t) = self.files.get(&key).cloned() else { panic!("harness: include target not in tree") };
                 match t.fault {
                     1 => return Err(ModelErr::OpenFailed { includer: path.to_path_buf(), line: line_no, target: resolved }),
                     2 => return Err(ModelErr::Io { path: resolved }),
@@ -351,11 +351,10 @@ impl<'a> Model<'a> {
     /// Same as `flatten`, but lines are attributed to the path as the parser spells it
     /// (includer's directory joined with the written path, not normalised).
     fn flatten_as(&mut self, key: &Path, spelled: &Path, depth: usize, origin: &mut String) -> Result<(), ModelErr> {
-        let spec = *self.files.get(key).expect("model: file exists");
-        let alias = FileSpec { path: spelled.display().to_string(), ..spec.clone() };
+        let spec = self.files.get(key).expect("model: file exists").clone();
+        let alias = FileSpec { path: spelled.display().to_string(), ..(*spec).clone() };
         // temporarily register the spelled path
-        let leaked: &'a FileSpec = Box::leak(Box::new(alias));
-        let had = self.files.insert(spelled.to_path_buf(), leaked);
+        let had = self.files.insert(spelled.to_path_buf(), std::rc::Rc::new(alias));
         let r = self.flatten(spelled, depth, origin);
         match had {
             Some(h) => {
@@ -464,7 +463,7 @@ fn run(scn: &Scn) {
             }
             _ => fs::write(&f.path, text.as_bytes()),
         }
-        tree.insert(PathBuf::from(&f.path), f);
+        tree.insert(PathBuf::from(&f.path), std::rc::Rc::new(f.clone()));
     }
     // --- model ----------------------------------------------------------------------------
     let root = PathBuf::from(&scn.files[0].path);
